@@ -141,8 +141,8 @@ func runFaults(sc M) {
 			f := "none"
 			if c.Err == errInjected.Error() {
 				f = "error"
-			} else if c.Err == "short" {
-				f = "short"
+			} else if c.Err == "short" || c.Err == "partial" || c.Err == "partial-error" {
+				f = c.Err
 			}
 			dl.calls = append(dl.calls, M{"dep": fsDepName[c.Op], "fault": f})
 		}
